@@ -154,5 +154,49 @@ def run_case(case):
                              "first_expected": C.short([v for _, v in (ref.dyn_atoms()[:4] if cls == "MS" else [])]),
                              "ss_state_node1": C.short(
                                  {n: v.tolist() for n, v in ref.ss_states()[1].items()}) if cls == "SS" else None}
+    # ocp.discrete_system(): one control interval with random inputs must be the M-step scheme as well
+    if not res["violations"]:
+        try:
+            import casadi as ca
+            Fd = C.call("discrete_system", b.ocp.discrete_system)
+            ph = rb(view.random_point(rng))
+            ref = model.RefModel(spec, ph)
+            if ref.amplification() < 1e3:
+                k = int(rng.integers(0, N))
+                x0 = {s["name"]: rng.standard_normal(tuple(s["shape"])) for s in ref.states}
+                xe, _, _, _, _ = ref.propagate(k, x0)
+                xin = np.concatenate([x0[s["name"]].reshape(-1, order="F") for s in ref.states])
+                uin = np.concatenate([ph["uc:" + s["name"]][k].reshape(-1, order="F") for s in spec["controls"]]) \
+                    if spec["controls"] else np.zeros(0)
+                pv = []
+                for grp, src in (("params", None), ("variables", None)):
+                    for gk in ("", "control", "control+"):
+                        for s_ in spec[grp]:
+                            key = (s_.get("grid") or "") + ("+" if s_.get("include_last") else "")
+                            if key != gk:
+                                continue
+                            if grp == "params":
+                                val = ref.pval[s_["name"]] if not s_.get("grid") else ref.pval[s_["name"]][k]
+                            else:
+                                val = ph["v:" + s_["name"]] if not s_.get("grid") else ph["vc:" + s_["name"]][k]
+                            pv.append(np.array(val, dtype=float).reshape(-1, order="F"))
+                        if grp == "variables" and gk == "":
+                            # FreeTime horizons become global variables of the transcribed stage (T first, then t0)
+                            for key in ("T", "t0"):
+                                if spec[key]["kind"] == "free":
+                                    pv.append(np.array([ph[key]], dtype=float))
+                pin = np.concatenate(pv) if pv else np.zeros(0)
+                out = Fd(x0=xin, u=uin, T=float(ref.h[k]), t0=float(ref.tc[k]), p=pin, z0=np.zeros(0))
+                got = np.array(out["xf"]).reshape(-1)
+                want = np.concatenate([xe[s["name"]].reshape(-1, order="F") for s in ref.states])
+                res["evals"] += 1
+                res["counters"]["discrete_system"] = 1
+                if C.finite(want, got) and np.max(np.abs(got - want)) > 1e-9 * (1 + np.max(np.abs(want))):
+                    res["violations"].append({
+                        "kind": "discrete-system", "mech": "C01|discrete_system-differs-from-scheme",
+                        "detail": "ocp.discrete_system() on interval %d: %s, M-step reference scheme %s" % (
+                            k, C.short(got), C.short(want))})
+        except C.RockitRaised as e:
+            res["violations"].append(C.exc_violation(ID, e, "discrete_system"))
     res["nontrivial"] = res["evals"] > 0
     return res
